@@ -976,6 +976,9 @@ def run(prog, rep, tier):
     rep.rule('VALUE-dead', 'no result of a call is bound to a local that is never read (reaching '
              'definitions)')
     check_dead_computations(prog, rep, ['tenpy/tools/hdf5_io.py'])
+    from ..flow import check_undefined_attrs
+    rep.rule('ATTR-defined', 'every self.X read names an attribute bound somewhere in the class family')
+    check_undefined_attrs(prog, rep, ['tenpy/tools/hdf5_io.py'])
     return rep.finish(
         level='other',
         explanation='Writer/reader agreement for every class offering HDF5 export (%d classes '
